@@ -243,4 +243,9 @@ theorem vector_repr_agree : checkVectorReprAgree = true := by decide +kernel
 /-- `AFFINE_ODD_MULTIPLES_OF_BASEPOINT[k]` and `ED25519_BASEPOINT_TABLE[0][2k]` (k < 4) are the same literal -/
 theorem tables_overlap_ok : checkTablesOverlap = true := by decide +kernel
 
+/-! ## Everything at once -/
+
+/-- every check that `Dalek.Model.ConstCheck.reportC12` (the list the driver prints) names succeeds -/
+theorem reportC12_all_ok : reportC12.all (fun nb => nb.2) = true := by decide +kernel
+
 end Dalek.Props.C12
